@@ -114,6 +114,22 @@ def witnesses() -> list[dict]:
                {"a.py": A, "b.py": "def f() -> int:\n    return 1\ndef broken(:\n"},
                {"a.py": A, "b.py": "def f() -> str:\n    return ''\n"}, kinds=["break-syntax", "fix-syntax+signature"])
     out.append({"name": n, "steps": s, "modes": ["normal", "skip"]})
+    # missing dependency edges (deps.py): state-dependent, so the witnesses are three-step histories
+    M0 = "from d0 import Base\nclass Sub(Base):\n    z: int = 0\n"
+    U0 = "from m0 import Sub\ndef f(s: Sub) -> int:\n    return s.x\nv: int = Sub().x\n"
+    n, s = raw("base-attr-added-later", {"d0.py": "class Base:\n    y: str = ''\n", "m0.py": M0, "u0.py": U0},
+               {"d0.py": "class Base:\n    x: int = 0\n    y: str = ''\n", "m0.py": M0, "u0.py": U0},
+               {"d0.py": "class Base:\n    x: str = ''\n    y: str = ''\n", "m0.py": M0, "u0.py": U0})
+    s[1]["edits"] = [{"kind": "variant", "scenario": "inherited-attr", "module": "d0", "from": 2, "to": 0}]
+    s[2]["edits"] = [{"kind": "variant", "scenario": "inherited-attr", "module": "d0", "from": 0, "to": 1}]
+    out.append({"name": n, "steps": s, "modes": ["normal", "skip"]})
+    UK = "from d0 import Thing\ndef f(x: Thing) -> None: ...\n"
+    n, s = raw("any-typed-name-in-annotation", {"d0.py": "def Thing(a: int) -> int:\n    return a\n", "u0.py": UK},
+               {"d0.py": "from typing import Any\nThing: Any = None\n", "u0.py": UK},
+               {"d0.py": "Thing: int = 0\n", "u0.py": UK})
+    s[1]["edits"] = [{"kind": "variant", "scenario": "class-kind", "module": "d0", "from": 1, "to": 5}]
+    s[2]["edits"] = [{"kind": "variant", "scenario": "class-kind", "module": "d0", "from": 5, "to": 3}]
+    out.append({"name": n, "steps": s, "modes": ["normal", "skip"]})
     # blocking error pending in b.py, then b.pyi appears (N1) / b.py becomes b/__init__.py still broken (N2)
     BAD = "def f() -> int:\n    return 1\ndef broken(:\n"
     n, s = raw("blocker-then-stub", {"a.py": A, "b.py": "def f() -> int:\n    return 1\n"}, {"a.py": A, "b.py": BAD},
@@ -182,6 +198,18 @@ def is_note(line: str) -> bool:
     return bool(NOTE_RE.match(line))
 
 
+# (scenario, a variant of the defining module the instance was in earlier, name of the shape):
+# the daemon misses errors of the using modules after a later variant change
+MISSING_DEP_SHAPES = [
+    # the attribute did not exist in the base class when the subclass' module was analysed: deps.py adds
+    # <Base.x> -> <Sub.x> only for names present in the base at that time, and adding x does not reprocess the subclass
+    ("inherited-attr", 2, "attribute-added-to-base-after-subclass-was-analysed"),
+    # the name was a variable of declared type Any (valid as a type, analysed to Any): no dependency on the name
+    # is recorded for the annotation that used it
+    ("class-kind", 5, "annotation-resolved-to-any-typed-variable"),
+]
+
+
 def explain(diff: list[str], dm: dict, fm: dict, hist_state: dict) -> tuple[list[dict], list[str]]:
     """Partition a daemon/full difference into parts that match a known class; returns (observations to
     report, unexplained lines).  Every predicate is about the *lines themselves*; nothing is deleted before
@@ -217,6 +245,15 @@ def explain(diff: list[str], dm: dict, fm: dict, hist_state: dict) -> tuple[list
             obs.append({"class": "submodule-deleted-package-remains"})
             plus = [l for l in plus if not names_it(l)]
             minus = [l for l in minus if not names_it(l)]
+    # (f) missing dependency edges that depend on the variants a construct scenario went through earlier
+    if minus and hist_state.get("variants") and hist_state.get("scenario_history"):
+        for idx, ent in hist_state["variants"].items():
+            for scen, earlier, shape in MISSING_DEP_SHAPES:
+                if ent["scenario"] == scen and earlier in ent["hist"][:-1]:
+                    mine = [l for l in minus if re.match(r"^[a-z]+" + idx + r"(\.pyi?|/)", l)]
+                    if mine:
+                        obs.append({"class": "missing-dependency", "scenario": scen, "shape": shape})
+                        minus = [l for l in minus if l not in mine]
     # order-only differences caused by a moved note are part of (a)
     if any(o["class"] == "only-once-note-moves" for o in obs):
         other = [d for d in other if not d.startswith("~")]
@@ -238,6 +275,15 @@ def explain(diff: list[str], dm: dict, fm: dict, hist_state: dict) -> tuple[list
 def step_events(prev_files: dict | None, files: dict, edits: list[dict], hist_state: dict) -> None:
     """Track, from the files themselves, the events the known-finding predicates refer to."""
     hist_state.setdefault("deleted_submodules", set())
+    # construct scenarios: the variants the defining module of each instance has gone through
+    vh = hist_state.setdefault("variants", {})
+    for e in edits:
+        if e.get("kind") in ("variant", "restore-definer", "add-stub") and e.get("scenario") and "to" in e:
+            idx = re.sub(r"\D", "", e["module"].split(".")[-1])
+            ent = vh.setdefault(idx, {"scenario": e["scenario"], "hist": []})
+            if not ent["hist"] and "from" in e:
+                ent["hist"].append(e["from"])
+            ent["hist"].append(e["to"])
     hist_state["stub_removed"] = []
     hist_state["new_stdlib_imports"] = []
     if prev_files is None:
@@ -313,7 +359,7 @@ def replay_of(h: dict, k: int, diff) -> dict:
 
 def check_outputs(ctx: Ctx, h: dict, count: bool = True) -> tuple[bool, bool]:
     """The property's oracle on one history.  Returns (any difference, any VIOLATION reported)."""
-    hist_state: dict = {}
+    hist_state: dict = {"scenario_history": h["kind"] in ("pairs", "catalog", "search", "witness")}
     prev_files = None
     prev_daemon = None
     any_diff = False
